@@ -1,6 +1,8 @@
 import ZkVerif.Audit
 import ZkVerif.Props.ExecInstance
+import ZkVerif.Props.Sha3
 #audit_ns ZkVerif.ExecInstance
 #audit_ns ZkVerif.q_prime
 #audit_ns ZkVerif.q_pred_factorisation
 #audit_ns ZkVerif.powMod_eq
+#audit_ns ZkVerif.Sha3
